@@ -183,6 +183,13 @@ fn cmd_check(args: &[String]) -> i32 {
     };
     println!("cwsim check property={} tier={} seed={} runs={} monitors={}", prop, tier, seed, runs, mon);
     let t0 = Instant::now();
+    let ff = load_findings(&format!("{}/known_findings.json", dir));
+    let _ = runner::TOLERATE.set(
+        ff.known
+            .iter()
+            .map(|k| trace::Tolerated { property: k.property.clone(), class: k.class.clone(), facts: k.facts.clone() })
+            .collect(),
+    );
     let (sums, agg) = run_batch(&cfg, 600);
 
     // determinism self-check: re-execute the first runs and compare event-log hashes
@@ -226,7 +233,6 @@ fn cmd_check(args: &[String]) -> i32 {
             extra.push(RunSummary { world: o.trace.world.clone(), run: o.trace.run, out: o });
         }
     }
-    let ff = load_findings(&format!("{}/known_findings.json", dir));
     let mut known_seen: BTreeMap<String, u64> = BTreeMap::new();
     let mut known_what: BTreeMap<String, String> = BTreeMap::new();
     let mut known_first: BTreeMap<String, (usize, trace::Violation)> = BTreeMap::new();
